@@ -211,9 +211,13 @@ def scenario(s, mode, ops):
         ports = {"tcp": [TPORT], "udp": [UDPPORT]}.get(fault, [])
         for p in ports:
             N.fail_bind_ports.add(p)
+        # the CLASS with which a server socket fails to open is not the property's business (port in use, a port number
+        # out of range, an unsupported platform): it varies with the history, deterministically
+        N.bind_fault_exc = BIND_FAULTS[len(ops) % len(BIND_FAULTS)][1]
         try:
             return fn()
         finally:
+            N.bind_fault_exc = None
             for p in ports:
                 N.fail_bind_ports.discard(p)
 
@@ -1186,6 +1190,15 @@ def _preload():
 # ------------------------------------------------------------------------------------------------
 # Coq terms
 # ------------------------------------------------------------------------------------------------
+def _runtime_exc():
+    from qmi.core.exceptions import QMI_RuntimeException
+    return QMI_RuntimeException("server socket not supported on this platform")
+
+
+BIND_FAULTS = [("OSError", lambda: OSError(98, "Address already in use")),
+               ("OverflowError", lambda: OverflowError("bind(): port must be 0-65535.")),
+               ("QMI_RuntimeException", _runtime_exc)]
+
 EXN = {"QMI_UsageException": "EUsage", "QMI_InvalidOperationException": "EInvalidOp",
        "QMI_DuplicateNameException": "EDup", "QMI_UnknownNameException": "EUnknownName",
        "OSError": "EOSError", "ConnectionRefusedError": "EConnRefused", "AssertionError": "EAssert",
@@ -1245,6 +1258,8 @@ def coq_out(op, out):
             return "(OExc ECtor)"                      # the injected constructor fault, whatever its class
         if op[0] in ("cstop", "qstop") and c in BASE_NAMES:
             return "(OExc EBase)"
+        if op[0] in ("cstart", "qstart") and op[1] in ("tcp", "udp") and c in [b[0] for b in BIND_FAULTS]:
+            return "(OExc EOSError)"                   # the injected bind fault, whatever its class
         return "(OExc %s)" % EXN.get(c, "EOther")
     return "(OExc EOther)"
 
